@@ -406,4 +406,11 @@ func (group *Group) delIn() {
 	group.httptsGopCache.Clear()
 	group.sdpCtx = nil
 	group.patpmt = nil
+
+	// codec information belongs to the input that just ended; the next input
+	// of this stream name may carry other tracks (or no video at all)
+	group.stat.AudioCodec = ""
+	group.stat.VideoCodec = ""
+	group.stat.VideoWidth = 0
+	group.stat.VideoHeight = 0
 }
